@@ -1,4 +1,5 @@
 import datetime
+import decimal
 import functools
 import math
 import re
@@ -813,6 +814,8 @@ class ValueDecimal(Value):
 
     def __repr__(self):
         result = repr(self.value)
+        if "e" in result:
+            result = format(decimal.Decimal(result), "f")
         if "." not in result:
             result += ".0"
         return result
